@@ -202,6 +202,7 @@ def _calibration(ctx, N, cls):
         hi = si.heap[oi.obj.id]
         hi["_axis"], hi["initialize"] = vconst(0), init_v
         ctx.call_method(Ii, si, oi, "_init_greedy_search", X, y, integer("S"))
+        hi = si.heap[oi.obj.id]  # (a branch inside the call replaces the heap table: look the object up again)
         sel = hi.get("selected_idx_")
         ok = len(pushed) == 1 and sel is not None and pushed[0] is not None and N.nf(pushed[0].term) == N.nf(T("getitem", sel.term, _const(0)))
         if ok and vname in ("int", "numpy integer"):
